@@ -1,6 +1,7 @@
 import Rio.Model.Osfs
 import Rio.Generated.Facts
 import Rio.Proofs.OsfsTheory
+import Rio.Proofs.OsfsNoLinks
 /-!
 # C07 — A based filesystem handle resolves paths like a chroot and never escapes
 
@@ -86,5 +87,34 @@ theorem C07_resolveLink (t : Tree_) (target : Bytes) (startingAt : RelPath)
     ∀ p, (resolveLink t (numLinks t + 2) target startingAt []).1 = .ok p → Inside p := by
   obtain ⟨a, _, _, d⟩ := resolveLink_ok t (numLinks t + 2) target startingAt [] ⟨by simp, by simp⟩ hin hl (by simp)
   exact ⟨a, d⟩
+
+/-! ## No symlink is ever left to the kernel (proofs in `Rio/Proofs/OsfsNoLinks.lean`) -/
+
+/-- **The resolver never asks the kernel about a location with a symlink in a proper prefix**: on every prefix-closed
+    tree (`TreeWF`: ancestors of entries are entries — every directory tree is), for every canonical path and both
+    modes, the model's `.hostFollow` outcome (a `readlink` of a path the kernel would resolve through a symlink, on the
+    host) is unreachable. -/
+theorem C07_nolinks (t : Tree_) (hwf : TreeWF t) (path : RelPath) (rl : Bool) (hc : path.Clean) :
+    realpath t path rl ≠ .hostFollow :=
+  (realpath_nolinks t hwf path rl hc).1
+
+/-- **The path handed to the final system call is literal**: a successful result has no symlink among its proper
+    prefixes, so the kernel resolves `B/p` component by component inside `B`: the object read or changed lies inside. -/
+theorem C07_result_literal (t : Tree_) (hwf : TreeWF t) (path p : RelPath) (rl : Bool) (hc : path.Clean)
+    (h : realpath t path rl = .ok p) :
+    ∃ b, (∀ c ∈ b, Normal c) ∧ p = ofComps b ∧ ∀ i, i + 1 < b.length → NotLink t (joinWith slash (b.take (i + 1))) :=
+  (realpath_nolinks t hwf path rl hc).2 p h
+
+/-- the same for `ResolveLink` called directly, for a link location whose proper prefixes are link free -/
+theorem C07_resolveLink_nolinks (t : Tree_) (hwf : TreeWF t) (fuel : Nat) (target : Bytes) (startingAt : RelPath)
+    (seen : List RelPath) (hsa : SafeButLast t startingAt) :
+    (resolveLink t fuel target startingAt seen).1 ≠ .hostFollow ∧
+    ∀ p, (resolveLink t fuel target startingAt seen).1 = .ok p → Safe t p :=
+  resolveLink_nl t hwf fuel target startingAt seen hsa
+
+/-- the hypothesis is met by real trees: `d/`, `d/a`, `l -> /d/a` is prefix closed (test of `TreeWF` via its
+    decidable criterion) -/
+example : TreeWF [([0x64], .dir), ([0x64, 0x2f, 0x61], .file), ([0x6c], .link [0x2f, 0x64, 0x2f, 0x61])] :=
+  treeWF_of_b (by decide +kernel)
 
 end Rio
